@@ -165,6 +165,13 @@ def g_answer(a):
     raise ValueError(k)
 
 
+def reference_indicator(real_path):
+    """rope's stated design (resourceobserver.ChangeIndicator on POSIX): the pair (modification time, size).
+    Computed by the harness itself, not through rope, so that a weaker indicator in the code is seen."""
+    st = os.stat(real_path)
+    return (st.st_mtime, st.st_size)
+
+
 # ----------------------------------------------------------------------------- abstraction of a project
 def read_tree(root, texts):
     disk = {}
@@ -233,14 +240,13 @@ def abstract(project, texts, soa):
     st["mods"], st["cells"] = mods, cells
     fl = project.file_list.files
     st["flist"] = None if fl is None else set(path_of(r.path) for r in fl)
-    ind = resourceobserver.ChangeIndicator()
     watched = {}
     for res, stored in project.pycore.observer.resources.items():
         p = path_of(res.path)
         assert (p == ()) or (isinstance(res, Folder) == (p[-1] % 4 == 0)), res
         if stored is None:
             watched[p] = "WNone"
-        elif res.exists() and ind.get_indicator(res) == stored:
+        elif res.exists() and reference_indicator(res.real_path) == stored:
             watched[p] = "WCur"
         else:
             watched[p] = "WStale"
